@@ -68,6 +68,12 @@ func runScenario(o *vrt.Obs, sc *b2fx.Scenario, tag string) {
 	lg := &mem.Log{}
 	a, b := sc.Stations(lg)
 	sa, sb := sc.Sides(a, b)
+	// one scenario in four runs with modem-like connections on both stations (Flush / TxBufferLen / SetRobust,
+	// as the ardop and agwpe transports offer): the outcome must not depend on the transport kind
+	if (len(sc.MsgsA)*5+len(sc.MsgsB)+sc.Seg)%4 == 0 {
+		sa.Modem, sb.Modem = true, true
+		o.Count("sessions_on_modem_like_connections", 1)
+	}
 	// one scenario in three runs on a link with flow control (1, 7 or 200 bytes in flight per direction)
 	capacity := []int{0, 0, 0, 0, 0, 0, 1, 7, 200}[(len(sc.MsgsA)*7+len(sc.MsgsB)*3+sc.Seg)%9]
 	res, _ := b2fx.RunPair(sa, sb, vpipe.Plan{Seed: 1, Seg: sc.Seg, CutDir: vpipe.NoCut, Capacity: capacity}, false)
